@@ -168,6 +168,8 @@ def ai(a, k, op, v):
     if isinstance(k, tuple) and k and all(isinstance(x, S.NZ) for x in k):
         if not isinstance(a, S.SymArray):
             raise Unsupported('augmented store through a symbolic mask into a real ndarray')
+        if isinstance(v, S.Masked):
+            v = v.full          # same selection on both sides: the operation is applied cell-wise, the mask keeps the rest
         full = OPS[op](a, v)
         a[k[0].mask] = full
         return
